@@ -37,9 +37,10 @@ var realStdout *os.File
 var fullPrepare bool
 
 func main() {
-	mode := flag.String("mode", "matrix", "matrix | hist | list")
+	mode := flag.String("mode", "matrix", "matrix | hist | flow | list")
 	policy := flag.String("policy", "", "policy matrix written by TLC (JSON: {rows:[...]})")
 	histf := flag.String("hist", "", "histories to replay (JSON)")
+	flowf := flag.String("flows", "", "multi-database flows to replay (JSON)")
 	tracef := flag.String("trace", "", "ndjson trace output")
 	dir := flag.String("dir", "", "scratch directory for the server's data")
 	seed := flag.Int64("seed", 1, "seed")
@@ -78,6 +79,14 @@ func main() {
 		w.openTrace(*tracef)
 		w.setup()
 		w.runMatrix(strings.Split(*roles, ","), strings.Split(*kinds, ","), strings.Split(*tokenSels, ","))
+	case "flow":
+		if *flowf == "" || *tracef == "" {
+			vh.Fatalf("-flows and -trace are required")
+		}
+		w.policy = map[string]bool{}
+		w.openTrace(*tracef)
+		w.setup()
+		w.runFlows(*flowf)
 	case "hist":
 		if *policy == "" || *tracef == "" || *histf == "" {
 			vh.Fatalf("-policy, -hist and -trace are required")
@@ -101,29 +110,30 @@ func main() {
 // ---------------------------------------------------------------- server
 
 type world struct {
-	seed       int64
-	res        *vh.Result
-	srv        *server.ImmuServer
-	conn       *grpc.ClientConn
-	lis        *bufconn.Listener
-	rpcs       []*rpcCase
-	policy     map[string]bool
-	trace      *os.File
-	traceN     int
-	ctr        int
-	adm        map[string]context.Context // admin sessions per database
-	sent       map[string][][]byte        // database class -> sentinel byte strings
-	docID      map[string]string          // database name -> id of the fixture document
-	okNone     map[string]bool            // rpc key + target -> succeeded without any authentication
-	users      map[string]*testUser
-	victim     string
-	victimA    string
-	snapOK     *snapshot // last snapshot, valid if nothing happened since
-	exportedTx []byte
-	full       *snapshot // last full read of database list, settings and users
-	forceFull  bool
-	lastDetail []string
-	badLines   []int
+	seed                    int64
+	res                     *vh.Result
+	srv                     *server.ImmuServer
+	conn                    *grpc.ClientConn
+	lis                     *bufconn.Listener
+	rpcs                    []*rpcCase
+	policy                  map[string]bool
+	trace                   *os.File
+	traceN                  int
+	ctr                     int
+	adm                     map[string]context.Context // admin sessions per database
+	sent                    map[string][][]byte        // database class -> sentinel byte strings
+	docID                   map[string]string          // database name -> id of the fixture document
+	okNone                  map[string]bool            // rpc key + target -> succeeded without any authentication
+	users                   map[string]*testUser
+	victim                  string
+	victimA                 string
+	snapOK                  *snapshot // last snapshot, valid if nothing happened since
+	exportedTx              []byte
+	full                    *snapshot // last full read of database list, settings and users
+	forceFull               bool
+	lastDetail              []string
+	badLines                []int
+	lastSessionID, lastTxID string // ids found in the responses of the last call
 }
 
 // the fixture databases; a database that a call managed to delete cannot be created again under the same name
